@@ -9,6 +9,7 @@ package sliceiterator
 
 //@ func New
 //@   props C19 C03
+//@   allocates Iterator
 //@   modifies
 //@   ensures new.fresh {C19,C03}: fresh(result) && result.data == s && result.idx == 0 - 1
 
